@@ -69,6 +69,9 @@ func (s *LoadStyle) field(v, m int) string {
 	return strconv.Itoa(v)
 }
 
+var midMeta = []string{";redcode", ";redcode-94", ";redcode-94nop verbose", ";REDCODE", ";name Another Name", ";author Someone Else",
+	";strategy more of the same", ";strategy", ";kill Some Warrior", ";version 2", ";date 1994"}
+
 // PrintLoadFile writes a warrior in the canonical load-file layout of the
 // dialect ('94: ORG n first, OP.MOD lines; '88: OP lines, END n last), with the
 // layout-only perturbations st selects.
@@ -83,6 +86,11 @@ func PrintLoadFile(code []ref.Instr, start int, legacy bool, m int, st LoadStyle
 		}
 		if s.Comments && s.pick(6) == 1 {
 			emit(s.opt() + harmlessComments[s.pick(len(harmlessComments))])
+		}
+		if s.Meta && s.pick(5) == 1 {
+			// metadata comments are comments wherever they stand: between the directive and the
+			// code, between two instructions, in front of the END line
+			emit(midMeta[s.pick(len(midMeta))])
 		}
 	}
 	eol := func() string {
